@@ -122,11 +122,12 @@ def classify(diag, lines):
         for sp in spans:
             mk = mk or marker_on(lines, sp['line_start'])
         when = 'before loop' if 'before' in msg else 'at end of loop body'
-        if mk is None:
-            return ('fail', '%s::body[%s]' % (fn, msg), fn, msg)
-        return ('fail', '%s[%s]' % (mk, when), mk.rsplit('::', 1)[0], msg)
+        # A loop invariant (or a termination measure) is part of OUR proof, tied to the form of the loop it annotates; a
+        # restructured but equivalent loop breaks it without breaking the property.  It is therefore undecided, and the
+        # runner looks for a concrete failing input before it reports anything.
+        return ('undecided', None, (mk.rsplit('::', 1)[0] if mk else fn), 'loop invariant of the contract not preserved (%s): %s' % (when, (mk or msg)))
     if 'decreases not satisfied' in msg or 'could not prove termination' in msg:
-        return ('fail', '%s::termination' % fn, fn, msg)
+        return ('undecided', None, fn, 'termination measure of the contract not established: ' + msg)
     if fn is None:
         return ('infra', None, None, '%s (generated line %d)' % (msg, pl))
     mk = marker_on(lines, pl)
